@@ -267,7 +267,20 @@ func vpC10_O5() {
 		el.uncompress(NewEventList(evs...).compress())
 		return el
 	}
-	switch vpChoose("shape", 3) {
+	switch vpChoose("shape", 4) {
+	case 3: // re-framed in transit (CBOR carries the first parent hash as raw bytes): the first event's
+		// parent hash swallows the leading byte of its value; Index || ParentHash || E.Bytes() is the same
+		// byte string, so every hash of the chain is unchanged - but the list now names another value
+		vpAssume(j0 >= 1)
+		c := mk(j0, j1, false).compress()
+		eb := c.E[0].Bytes()
+		vpAssume(len(eb) == 2 && eb[1] != 0)
+		c.ParentHash = append(append(Hash{}, c.ParentHash...), eb[0])
+		c.E[0] = new(big.Int).SetBytes(eb[1:])
+		el := &EventList{ComputeProduct: true}
+		el.uncompress(c)
+		err := el.Verify(h.accs[against])
+		vpAssert("a transported list whose first event was re-framed is refused", err != nil)
 	case 0: // one transported list j0..j1
 		err := mk(j0, j1, false).Verify(h.accs[against])
 		vpAssert("a transported event list verifies exactly against the accumulator it ends in", (err == nil) == (against == j1))
